@@ -163,7 +163,7 @@ def run(ctx):
                        "unknown/ALPN-token, ALPN set, TLS 1.2|1.3)> + the client-auth matrix (4 modes x own/other CA per context x "
                        "6 peer kinds x 2 versions, 1-2 contexts) + inspector x first-byte x readiness + upstream (server_name x "
                        "insecure_skip x CA x certificate issuer/expiry) + update histories of 1-2 single-field updates (ca, names, server_name, alpn, "
-                       "verify, require / skip, ca, server_name) on contexts already in use, each run with static contexts (listener/cluster "
+                       "verify, require, the listener's inspector flag / skip, ca, server_name) on contexts already in use, each run with static contexts (listener/cluster "
                        "config update) and with SDS contexts (secret push or in-place re-configuration), enumerated by TLC from TLSSelectMC; all replayed into the real context "
                        "managers, and a seeded sample (all auth/inspector/upstream cases + %d context lists) again through listeners and "
                        "TLS clusters of an in-process MOSN" % (8 if q else 11, 40 if q else 250))
